@@ -31,6 +31,7 @@ type M = map[string]any
 type herr string
 
 type program struct {
+	Thr   []int    `json:"thr"` // tuning thresholds (karatsuba, basicSqr, karatsubaSqr); defaults when absent
 	ID    string   `json:"id"`
 	Regs  []string `json:"regs"`
 	Ctxs  []string `json:"ctxs"`
@@ -467,6 +468,9 @@ func (m *machine) exec(s M) (ret any) {
 		e := m.reg(s, "z").GobDecode(b)
 		ret = M{"err": e != nil, "hex": hex.EncodeToString(b)}
 	default:
+		if r, ok := m.execNat(op, s); ok {
+			return r
+		}
 		if r, ok := m.execCtx(op, s); ok {
 			return r
 		}
@@ -475,7 +479,12 @@ func (m *machine) exec(s M) (ret any) {
 	return ret
 }
 
+var curThr = []int{30, 10, 50}
+
 func main() {
+	// scratch buffers are poisoned when handed out and when put back: a use after put, or a
+	// reliance on zeroed scratch memory, corrupts results deterministically (C18, C06)
+	decimal.VerifPoolEnable(true, nil)
 	in := flag.String("in", "", "programs (ndjson)")
 	out := flag.String("out", "", "events (ndjson)")
 	flag.Parse()
@@ -519,6 +528,12 @@ func runProgram(p *program, enc *json.Encoder) {
 		c := dctx.New(0, decimal.ToNearestEven)
 		m.ctxs[n] = &c
 	}
+	thr := []int{30, 10, 50}
+	if len(p.Thr) == 3 {
+		thr = p.Thr
+	}
+	decimal.VerifSetThresholds(thr[0], thr[1], thr[2])
+	curThr = thr
 	ctxNames := p.Ctxs
 	if ctxNames == nil {
 		ctxNames = []string{}
